@@ -440,3 +440,19 @@ def lowered_enumerate(eng, fi):
         return fi, eng.cfg(fi)
     view = _FnView(fi, body)
     return view, CFG(view)
+
+
+def effective_target_fids(eng, call, depth=2):
+    """fids a call resolves to, looking through thin wrappers (`def f(..): [local = ..;] return g(..)`): a wrapper whose only return hands back the result of one
+    internal call also counts as a call of that callee."""
+    ci = eng.res.calls.get(id(call))
+    out = set()
+    if ci is None:
+        return out
+    for t in ci.targets:
+        out.add(t.fid)
+        if depth > 0 and not t.is_lambda and isinstance(t.node, ast.FunctionDef):
+            rets = [r for r in eng.prog.own_nodes(t) if isinstance(r, ast.Return) and r.value is not None]
+            if len(rets) == 1 and isinstance(rets[0].value, ast.Call) and id(rets[0].value) in eng.res.calls:
+                out |= effective_target_fids(eng, rets[0].value, depth - 1)
+    return out
